@@ -121,6 +121,16 @@ macro_rules! sc_body {
                     Some(u64::MAX)
                 }
             }
+            // adaptors the crate does not override today: they must keep agreeing with plain iteration
+            "nth" => it.nth(2).map(|x| x as u64),
+            "fold" => Some(it.fold(0u64, |a, x| a.wrapping_mul(31).wrapping_add(x as u64))),
+            "skip" => it.skip(1).last().map(|x| x as u64),
+            "step" => Some(it.step_by(2).count() as u64),
+            "find" => it.find(|x| (*x as u64) & 1 == 1).map(|x| x as u64),
+            "byref" => {
+                let a = it.by_ref().take(2).count() as u64;
+                Some(a * 1_000_000 + it.count() as u64)
+            }
             _ => panic!("kind"),
         }
     }};
